@@ -387,7 +387,7 @@ func R1NilOpt(c *Ctx, scope []*ssa.Function, ruleSuffix string, floor int, optio
 							construct := "pass " + AccessPath(a) + " to " + shortCallee(CalleeName(ci))
 							if c.nonNilAt(a, in) || c.impliedNonNil(a, in) {
 								c.R.Ok(rule, FuncShort(fn), construct, c.pos(in.Pos()), "nil-checked before the call: "+why, true)
-							} else if w, isRev := reviewed["|"+FuncShort(fn)+"|"+construct]; isRev {
+							} else if w, isRev := c.reviewedWhy(reviewed, fn, FuncShort(fn), construct); isRev {
 								c.R.Ok(rule, FuncShort(fn), construct, c.pos(in.Pos()), "reviewed: "+w, true)
 							} else {
 								c.R.Bad(rule, FuncShort(fn), construct, c.pos(in.Pos()), "may be nil ("+why+") and the callee dereferences that parameter without a nil test")
@@ -417,7 +417,7 @@ func R1NilOpt(c *Ctx, scope []*ssa.Function, ruleSuffix string, floor int, optio
 					c.R.Ok(rule, FuncShort(fn), construct, c.pos(in.Pos()), "every incoming edge was nil-checked: "+why, true)
 					continue
 				}
-				if w, isRev := reviewed["|"+FuncShort(fn)+"|"+construct]; isRev {
+				if w, isRev := c.reviewedWhy(reviewed, fn, FuncShort(fn), construct); isRev {
 					c.R.Ok(rule, FuncShort(fn), construct, c.pos(in.Pos()), "reviewed: "+w, true)
 					continue
 				}
